@@ -454,12 +454,33 @@ def main():
                          "presentation point differs", "transformed base point", "exact identity of Props/C17 fails for the script's transformation")
         outcome = {}
         pooled = []
+        # phase 1: every presentation is CALLED first and the returned arrays are kept as they are (no copy); they are read
+        # only after all calls of the pair have been made - an array that aliases a buffer reused by a later call (a result
+        # kept by the user while the next presentation is intersected) then shows the later call's numbers
+        raw, snap = {}, {}
+        for name, calls in usable:
+            try:
+                raw[name] = [call_curves(route, A, B) for (A, B, back) in calls]
+                snap[name] = [np.array(c, copy=True) for c, _ in raw[name]]
+            except Exception as exc:  # noqa
+                raw[name] = exc
+        for name in snap:
+            for k, (c, _) in enumerate(raw[name]):
+                if c.shape != snap[name][k].shape or not np.array_equal(c, snap[name][k], equal_nan=True):
+                    d = dict(case)
+                    d["presentation"] = name
+                    res.failure("presentation-result-overwritten:" + name.rstrip("12"), "the array returned for presentation %s read %s right after the "
+                                "call and %s after the other presentations of the same pair had been intersected" %
+                                (name, snap[name][k].tolist(), c.tolist()), d)
+                    raw[name][k] = (snap[name][k], raw[name][k][1])
         for name, calls in usable:
             stats["presentations"] += 1
             try:
+                if isinstance(raw[name], Exception):
+                    raise raw[name]
                 pts, flag = [], False
                 for idx, (A, B, back) in enumerate(calls):
-                    cols, fl = call_curves(route, A, B)
+                    cols, fl = raw[name][idx]
                     flag = None if fl is None else (flag or fl)
                     for k in range(cols.shape[1]):
                         s, t = back(Fr(float(cols[0, k])), Fr(float(cols[1, k])))
